@@ -3,6 +3,7 @@ import re
 from rules.common import (opmap, PredTrue, PredFalse, TryOk, VariantEdge, NONPAYABLE, no_effects, where, flat_atoms, all_origins, exact_origins,
                           ops_of, show, origin_match, eq_test, pred_test, field_val, effects_signature)
 from base import CutPolicy, dep_origins
+from rules.common import rel, rel_sign, om, find_rel
 from absint import EMPTY, vfield, tagvals, const_of
 
 EXPLANATION = ("static analysis (MIR abstract interpretation): a claim records `until_epoch` as last claimed on every paying path and the "
@@ -73,12 +74,10 @@ def run(W, chk):
                "user weights come from %s via %s" % (sorted(src), [(e.extra.get("sop"), show(e.extra.get("key", EMPTY))[:120]) for e in rd]), H.entry)
 
     # ---- window cuts
-    ge_last = PredTrue("until >= last_claimed", lambda pn, pa: pn == "ge" and origin_match(pa[0], r"^(Query\(CurrentEpoch\)\.id|msg\.Claim\.until_epoch)$")
-                       and origin_match(pa[1], r"^Store\(LAST_CLAIMED_EPOCH\)$"))
+    ge_last = PredTrue("until >= last_claimed", rel(r"^(Query\(CurrentEpoch\)\.id|msg\.Claim\.until_epoch)$", ">=", r"^Store\(LAST_CLAIMED_EPOCH\)$"))
     claimed_before = VariantEdge("assume claimed before", r"^Store\(LAST_CLAIMED_EPOCH\)$", ["None"])
     no_effects(chk, W, "CUT-claim-window", FM, ("Claim",), [ge_last], " [given a previous claim]", effects=payout, extra=[claimed_before])
-    le_cur = PredTrue("until <= current", lambda pn, pa: pn == "le" and origin_match(pa[0], r"^msg\.Claim\.until_epoch$") and
-                      origin_match(pa[1], r"^Query\(CurrentEpoch\)\.id$"))
+    le_cur = PredTrue("until <= current", rel(r"^msg\.Claim\.until_epoch$", "<=", r"^Query\(CurrentEpoch\)\.id$"))
     until_some = VariantEdge("assume until_epoch given", r"^msg\.Claim\.until_epoch$", ["None"])
     no_effects(chk, W, "CUT-claim-window", FM, ("Claim",), [le_cur], " [given until_epoch]", effects=payout, extra=[until_some])
 
@@ -109,17 +108,17 @@ def run(W, chk):
 
     # ---- budget guards compare the updated claimed amount
     g = []
-    for e in A.switches():
-        for a in e.vals[0].atoms:
-            if isinstance(a[0], tuple) and a[0][0] == "pred" and a[0][1] == "le" and origin_match(a[0][3], r"^Store\(FARMS\)\.farm_asset\.amount$"):
-                g.append((e, a[0][2]))
+    BUD = r"^Store\(FARMS\)\.farm_asset\.amount$"
+    for (e, a, s) in find_rel(A.switches(), lambda v: True, "<=", om(BUD)):
+        lhs = a[0] if origin_match(a[1], BUD) else a[1]
+        g.append((e, lhs))
     okb = len(g) >= 2
     for (e, lhs) in g:
         o = all_origins(lhs)
         okb = okb and "Store(FARMS).claimed_amount" in o and "Store(FARMS).emission_rate" in o
     chk.expect(okb, "PROV-budget-guard", "FarmExhausted", "both budget checks compare claimed + reward with the budget",
                "budget guard operands: %s" % [sorted(x for x in all_origins(l) if x.startswith("Store(FARMS)")) for (e, l) in g], where(g[0][0]) if g else A.entry)
-    inner = PredTrue("claimed <= budget (update)", lambda pn, pa: pn == "le" and origin_match(pa[1], r"^Store\(FARMS\)\.farm_asset\.amount$"))
+    inner = PredTrue("claimed <= budget (update)", lambda pn, pa: rel_sign(pn, pa, lambda v: not origin_match(v, BUD), "<=", om(BUD)))
     pol = CutPolicy([inner])
     B = W.run(FM, "execute", ("Claim",), pol)
     fw = [e for e in B.writes() if e.extra.get("item") == "FARMS"]
